@@ -86,6 +86,10 @@ def build_receipt_pdu(seqnum, mid, err, how):
     if how in ('tlv', 'both'):
         # some SMSCs leave out the terminating NUL of the C-Octet String
         tlvs = smppref.tlv(0x001E, str(mid).encode() + (b'\x00' if (seqnum + mid) % 3 else b''))
+    if how != 'none' and (seqnum * 3 + mid) % 5 == 0:
+        # the receipt text travels in the message_payload parameter, short_message is empty
+        return smppref.encode_sm(0x5, seqnum, src=b'1', dst=b'2', esm_class=0x04, data_coding=0, short_message=b'',
+                                 tlvs=smppref.tlv(0x0424, text.encode('ascii')) + tlvs)
     return smppref.encode_sm(0x5, seqnum, src=b'1', dst=b'2', esm_class=0x04, data_coding=0, short_message=text.encode('ascii'), tlvs=tlvs)
 
 
